@@ -63,7 +63,7 @@ def createSpliceSites (s : Session) (exonType : Str) (gp pt : Option Str) (merge
         match g.attrs.get? "ID".toList with
         | some (v :: _) => pure { g with attrs := Dict.set g.attrs "ID".toList [nt ++ ['_'] ++ v] }
         | some [] => throw PyErr.index
-        | none => throw PyErr.key))
+        | none => pure g))                            -- `if "ID" in splice_site.attributes:` (no ID with merge_attributes=False)
     pure parts.flatten
   let l ← side true
   let r ← side false
